@@ -295,8 +295,11 @@ class CxxTables:
 # -- Python tables (tools/zonedbpy) ---------------------------------------------------
 
 class PyTables:
-    def __init__(self, cfg):
+    def __init__(self, cfg, texts=None):
+        """texts: {'zone_policies.py': text, 'zone_infos.py': text} - tables rendered by the checker (acv/genrender.py) are
+        read with the same reader as the checked-in ones"""
         self.cfg = cfg
+        self.texts = texts
         self.rules = {}      # ZONE_RULES_X -> [Entry]
         self.policies = {}   # ZONE_POLICY_X -> {'name':..., 'rules': Ref}
         self.policy_map = {}
@@ -309,6 +312,14 @@ class PyTables:
         self._load_infos(os.path.join(cfg.tools('zonedbpy'), 'zone_infos.py'))
 
     def _parse(self, path):
+        if self.texts is not None:
+            text = self.texts.get(os.path.basename(path))
+            if text is None:
+                raise AnalysisError('rendered tables: %s was not written (files: %s)' % (os.path.basename(path), sorted(self.texts)))
+            try:
+                return text.split('\n'), ast.parse(text)
+            except SyntaxError as e:
+                raise AnalysisError('rendered %s does not parse: %s' % (os.path.basename(path), e))
         if not os.path.exists(path):
             raise AnalysisError('anchor vanished: %s' % self.cfg.rel(path))
         text = open(path, encoding='utf-8').read()
